@@ -115,6 +115,9 @@ def patterns_for(shape, which):
     if rank >= 1 and n > 0:
         rev = tuple(reversed(range(rank)))
         out.append(('permuted', lambda off: PatternedTensor(base(off).permute(*rev).contiguous().permute(*rev))))
+        if rank >= 2:
+            # physical axes listed in another order than the virtual axes (what .T / permute of a PatternedTensor give)
+            out.append(('transposed', lambda off: PatternedTensor(base(off).permute(*rev).contiguous()).permute(rev)))
         if shape[-1] > 1:
             out.append(('stride0-last', lambda off: PatternedTensor(base(off)[..., 0:1].expand(shape))))
         if rank >= 2 and shape[0] > 1:
@@ -173,8 +176,8 @@ def patterns_for(shape, which):
     if which == 'min':
         return [x for x in out if x[0] in ('dense', 'stride0-all', 'diag')][:3]
     if which == 'few3':
-        return [x for x in out if x[0] in ('dense', 'diag', 'diag-last-two', 'stride0-all', 'onehot')]
-    return [x for x in out if x[0] in ('dense', 'stride0-all', 'diag', 'onehot', 'onehot0', 'permuted')]
+        return [x for x in out if x[0] in ('dense', 'diag', 'diag-last-two', 'stride0-all', 'onehot', 'transposed')]
+    return [x for x in out if x[0] in ('dense', 'stride0-all', 'diag', 'onehot', 'onehot0', 'permuted', 'transposed')]
 
 
 def restride(ph, f, grad):
